@@ -12,6 +12,10 @@
 //  * no plaintext on failure: the output buffer is pre-filled with a canary; after a rejected open of a message of >= 8 bytes
 //    it must not hold the decryption of the presented ciphertext (signature aead-plaintext-released:<alg>; zeroed or
 //    untouched buffers are fine).  Not applied to psAesDecryptGCMtagless, which by contract leaves verification to the caller.
+//    This check is compiled only with -DC12_STRICT (target c12_aead_strict) so that the decrypt-then-verify behaviour of
+//    psAesDecryptGCM/psAesDecryptGCM2 (findings/gcm-plaintext-released.md) cannot stop the main AEAD campaign.
+//  * context reuse after a tag shorter than 16 bytes: also only in c12_aead_strict (findings/gcm-short-tag-context-reuse.md);
+//    the main target re-initialises the context after a short tag.
 // Preconditions from the in-tree callers (cipherSuite.c, tls13CipherSuite.c, tls13Resume.c): 12-byte nonce; AAD pointer may be
 // NULL iff aadLen == 0; in place means exactly pt == ct; tag lengths 1..16; psAesDecryptGCM's ctLen = ptLen + tagLen;
 // one Init, then Ready + Encrypt/Decrypt + GetTag per record on the same context (context reuse).
@@ -67,11 +71,28 @@ bool released(const uint8_t *out, const std::vector<uint8_t> &leak) {
 // ------------------------------------------------------------------------------------------------- AES-GCM
 struct Gcm {
     HeapObj<psAesGcm_t> ctx; std::vector<uint8_t> key;
+    bool stale = false;     // last tag fetched from this context was shorter than 16 bytes (see findings/gcm-short-tag-context-reuse.md)
     explicit Gcm(int dirty) : ctx(dirty) {}
+    void init(Tape &t) {
+        XBuf k(key.size(), (unsigned) t.below(16)); memcpy(k.p, key.data(), key.size());
+        int32_t rc = psAesInitGCM(ctx.get(), k.p, (uint8_t) key.size());
+        VF_CHECK(rc == PS_SUCCESS, "gcm-init-refused", "psAesInitGCM rc=%d keylen=%zu", rc, key.size());
+        stale = false;
+    }
+    // Called after every tag computation.  The strict target (-DC12_STRICT) keeps using the context, as the API allows;
+    // the main target re-initialises it after a short tag so that the known stale-keystream defect cannot mask everything else.
+    void after_tag(Tape &t, Ctx &c, size_t taglen) {
+#ifdef C12_STRICT
+        (void) t; (void) c; stale = taglen < 16;
+#else
+        if (taglen < 16) { init(t); c.count("gcm-reinit-after-short-tag"); }
+#endif
+    }
+    const char *sig(const char *normal) const { return stale ? "gcm-stale-keystream-after-short-tag" : normal; }
 };
 
 // open through one of the three APIs. returns rc (<0 = rejected). out receives plaintext buffer contents.
-int32_t gcm_open(Tape &t, Gcm &g, const Msg &m, unsigned api, bool inplace, unsigned off, std::vector<uint8_t> &out, bool null_aad) {
+int32_t gcm_open(Tape &t, Ctx &c, Gcm &g, const Msg &m, unsigned api, bool inplace, unsigned off, std::vector<uint8_t> &out, bool null_aad) {
     size_t len = m.ct.size(), tl = m.tag.size();
     XBuf nonce(12, (unsigned) t.below(16)); memcpy(nonce.p, m.nonce.data(), 12);
     XBuf aad(m.aad.size(), (unsigned) t.below(16)); if (!m.aad.empty()) memcpy(aad.p, m.aad.data(), m.aad.size());
@@ -97,6 +118,7 @@ int32_t gcm_open(Tape &t, Gcm &g, const Msg &m, unsigned api, bool inplace, unsi
         if (len) memcpy(out.data(), dst, len);
         rc = memcmp(tag.p, m.tag.data(), tl) == 0 ? PS_SUCCESS : PS_AUTH_FAIL;   // the caller's comparison
     }
+    g.after_tag(t, c, api == 1 ? 16 : tl);      // psAesDecryptGCM2 always computes the full tag internally
     return rc;
 }
 
@@ -105,15 +127,15 @@ void gcm_case(Tape &t, Ctx &c) {
     Gcm g(t.coin() ? 0xB7 : 0);
     size_t kl = KL[t.below(3)];
     g.key.resize(kl); t.bytes(g.key.data(), kl);
-    { XBuf k(kl, (unsigned) t.below(16)); memcpy(k.p, g.key.data(), kl);
-      int32_t rc = psAesInitGCM(g.ctx.get(), k.p, (uint8_t) kl);
-      VF_CHECK(rc == PS_SUCCESS, "gcm-init-refused", "psAesInitGCM rc=%d keylen=%zu", rc, kl); }
+    g.init(t);
     unsigned nmsg = t.chance(1, 4) ? 2 : 1;      // records share one context
     std::string key, desc;
     for (unsigned mi = 0; mi < nmsg; mi++) {
+        unsigned neg = t.u8();                       // < 110: one random modification; 110..121: sweep over every bit (short message); else none
+        bool sweep = neg >= 110 && neg < 122;
         Msg m; m.nonce.resize(12); t.bytes(m.nonce.data(), 12);
-        size_t alen = gen_aad(t); m.aad.resize(alen); gen_data(t, m.aad.data(), alen);
-        Len L = gen_len(t, 16);
+        size_t alen = gen_aad(t); if (sweep) alen %= 21; m.aad.resize(alen); gen_data(t, m.aad.data(), alen);
+        Len L = gen_len(t, 16); if (sweep) L.n %= 34;
         std::vector<uint8_t> pt(L.n); gen_data(t, pt.data(), L.n);
         size_t tl = 16; { unsigned s = t.u8(); if (s >= 150) tl = (size_t) t.range(1, 16); if (s >= 240) tl = (size_t) t.range(1, 7); }
         bool null_aad = t.coin();
@@ -136,23 +158,25 @@ void gcm_case(Tape &t, Ctx &c) {
             XBuf tag(tl, (unsigned) t.below(16), CANARY);
             psAesGetGCMTag(g.ctx.get(), (uint8_t) tl, tag.p);
             size_t bad = 0; while (bad < L.n && dst[bad] == wct[bad]) bad++;
-            VF_CHECK(bad == L.n, "gcm-ciphertext-mismatch", "AES-%zu-GCM enc len=%zu aad=%zu parts=%s inplace=%d io=%u oo=%u msg#%u: first difference at byte %zu: got %s want %s", kl * 8, L.n, alen,
+            VF_CHECK(bad == L.n, g.sig("gcm-ciphertext-mismatch"), "AES-%zu-GCM enc len=%zu aad=%zu parts=%s inplace=%d io=%u oo=%u msg#%u: first difference at byte %zu: got %s want %s", kl * 8, L.n, alen,
                      parts_str(parts).c_str(), ip, io, oo, mi, bad, hex(dst + bad, L.n - bad, 16).c_str(), hex(wct.data() + bad, L.n - bad, 16).c_str());
-            VF_CHECK(memcmp(tag.p, wtag.data(), tl) == 0, "gcm-tag-mismatch", "AES-%zu-GCM tag len=%zu aad=%zu taglen=%zu parts=%s msg#%u: got %s want %s", kl * 8, L.n, alen, tl,
+            VF_CHECK(memcmp(tag.p, wtag.data(), tl) == 0, g.sig("gcm-tag-mismatch"), "AES-%zu-GCM tag len=%zu aad=%zu taglen=%zu parts=%s msg#%u: got %s want %s", kl * 8, L.n, alen, tl,
                      parts_str(parts).c_str(), mi, hex(tag.p, tl).c_str(), hex(wtag.data(), tl).c_str());
+            g.after_tag(t, c, tl);
         }
         m.ct.assign(wct.begin(), wct.begin() + (long) L.n); m.tag.assign(wtag.begin(), wtag.begin() + (long) tl);
         // ---- open (positive)
         unsigned api = (unsigned) t.below(3);
         bool dip = t.coin(); unsigned doff = (unsigned) t.below(16);
         std::vector<uint8_t> out;
-        int32_t rc = gcm_open(t, g, m, api, dip, doff, out, null_aad);
+        bool was_stale = g.stale;
+        int32_t rc = gcm_open(t, c, g, m, api, dip, doff, out, null_aad);
         static const char *AN[] = { "psAesDecryptGCM", "psAesDecryptGCM2", "tagless+GetGCMTag" };
-        VF_CHECK(rc == PS_SUCCESS, "gcm-valid-rejected", "%s rejected an untouched message rc=%d AES-%zu len=%zu aad=%zu taglen=%zu inplace=%d", AN[api], rc, kl * 8, L.n, alen, tl, dip);
-        VF_CHECK(out == pt, "gcm-decrypt-mismatch", "%s AES-%zu len=%zu aad=%zu inplace=%d off=%u: plaintext differs", AN[api], kl * 8, L.n, alen, dip, doff);
+        VF_CHECK(rc == PS_SUCCESS, was_stale ? "gcm-stale-keystream-after-short-tag" : "gcm-valid-rejected", "%s rejected an untouched message rc=%d AES-%zu len=%zu aad=%zu taglen=%zu inplace=%d msg#%u", AN[api], rc, kl * 8, L.n, alen, tl, dip, mi);
+        VF_CHECK(out == pt, was_stale ? "gcm-stale-keystream-after-short-tag" : "gcm-decrypt-mismatch", "%s AES-%zu len=%zu aad=%zu taglen=%zu inplace=%d off=%u msg#%u: plaintext differs (previous tag on this context was %s)", AN[api], kl * 8, L.n, alen, tl, dip, doff, mi,
+                 was_stale ? "shorter than 16 bytes" : "16 bytes");
         c.count(std::string("gcm-open:") + AN[api]);
         // ---- open (negative)
-        unsigned neg = t.u8();
         std::string negs = "-";
         auto try_corrupt = [&](int kind, size_t pos, unsigned bit) {
             Msg x = m;
@@ -163,17 +187,20 @@ void gcm_case(Tape &t, Ctx &c) {
             bool expect_reject = ov != 0;
             if (!expect_reject) c.count("gcm-neg:oracle-accepts(short-tag collision)");
             std::vector<uint8_t> o2;
-            int32_t r = gcm_open(t, g, x, api, dip, doff, o2, null_aad);
+            int32_t r = gcm_open(t, c, g, x, api, dip, doff, o2, null_aad);
             VF_CHECK((r < 0) == expect_reject, expect_reject ? "gcm-forgery-accepted" : "gcm-valid-rejected",
                      "%s %s a message with %s (pos=%zu bit=%u) AES-%zu len=%zu aad=%zu taglen=%zu; OpenSSL %s it", AN[api], r < 0 ? "rejected" : "ACCEPTED", CN[kind], pos, bit, kl * 8,
                      x.ct.size(), x.aad.size(), x.tag.size(), expect_reject ? "rejects" : "accepts");
+#ifdef C12_STRICT
             if (r < 0 && api != 2) {
                 // what a decrypt-before-verify implementation would have written: CTR decryption of the presented ciphertext
                 std::vector<uint8_t> leak;
                 if (kind != C_NONCE) { leak.resize(x.ct.size()); for (size_t i = 0; i < leak.size(); i++) leak[i] = (uint8_t) (x.ct[i] ^ m.ct[i] ^ pt[i]); }
                 VF_CHECK(!released(o2.data(), leak), "aead-plaintext-released:gcm", "%s returned rc=%d (%s) but left the decrypted plaintext of the unauthenticated message in the output buffer (len=%zu, inplace=%d)",
                          AN[api], r, CN[kind], leak.size(), dip);
+                c.count("release-checked:gcm");
             }
+#endif
             c.count(std::string("gcm-neg:") + CN[kind]);
             return true;
         };
@@ -181,7 +208,7 @@ void gcm_case(Tape &t, Ctx &c) {
             int kind = 1 + (int) t.below(C_NKINDS - 1);
             size_t pos = (size_t) t.u16(); unsigned bit = (unsigned) t.below(8);
             if (try_corrupt(kind, pos, bit)) negs = CN[kind];
-        } else if (neg < 122 && L.n <= 24 && alen <= 24) {
+        } else if (sweep) {
             // every single-bit corruption of ciphertext, tag, nonce and AAD
             size_t n = 0;
             for (int kind = C_CT; kind <= C_AAD; kind++) {
@@ -236,10 +263,13 @@ void chacha_case(Tape &t, Ctx &c) {
     unsigned nmsg = t.chance(1, 4) ? 2 : 1;
     std::string key, desc;
     for (unsigned mi = 0; mi < nmsg; mi++) {
+        unsigned neg = t.u8();
+        bool sweep = neg >= 110 && neg < 122;
         Msg m; m.nonce.resize(12); t.bytes(m.nonce.data(), 12);
-        size_t alen = gen_aad(t); m.aad.resize(alen); gen_data(t, m.aad.data(), alen);
+        size_t alen = gen_aad(t); if (sweep) alen %= 21; m.aad.resize(alen); gen_data(t, m.aad.data(), alen);
         Len L = gen_len(t, 64);                     // ChaCha20 block = 64, Poly1305 block = 16
-        if (t.chance(1, 3)) L = gen_len(t, 16);
+        if (t.u8() >= 170) L = gen_len(t, 16);
+        if (sweep) L.n %= 34;
         std::vector<uint8_t> pt(L.n); gen_data(t, pt.data(), L.n);
         std::vector<uint8_t> wct(L.n + 1), wtag(16);
         C12_ORACLE_OK(c, o_aead_seal(O_CHACHA20_POLY1305, g.key.data(), 32, m.nonce.data(), m.aad.data(), alen, pt.data(), L.n, wct.data(), wtag.data(), 16));
@@ -276,7 +306,7 @@ void chacha_case(Tape &t, Ctx &c) {
         int32_t rc = cha_open(t, g, m, api, dip, doff, out);
         VF_CHECK(rc >= 0, "chacha-valid-rejected", "%s rejected an untouched message rc=%d len=%zu aad=%zu inplace=%d", AN[api], rc, L.n, alen, dip);
         VF_CHECK(out == pt, "chacha-decrypt-mismatch", "%s len=%zu aad=%zu inplace=%d off=%u: plaintext differs", AN[api], L.n, alen, dip, doff);
-        unsigned neg = t.u8(); std::string negs = "-";
+        std::string negs = "-";
         auto try_corrupt = [&](int kind, size_t pos, unsigned bit) {
             Msg x = m;
             if (!corrupt(x, kind, pos, bit)) return false;
@@ -287,10 +317,13 @@ void chacha_case(Tape &t, Ctx &c) {
             std::vector<uint8_t> o2;
             int32_t r = cha_open(t, g, x, api, dip, doff, o2);
             VF_CHECK(r < 0, "chacha-forgery-accepted", "%s ACCEPTED a message with %s (pos=%zu bit=%u) len=%zu aad=%zu", AN[api], CN[kind], pos, bit, x.ct.size(), x.aad.size());
+#ifdef C12_STRICT
             std::vector<uint8_t> leak;
             if (kind != C_NONCE) { leak.resize(x.ct.size()); for (size_t i = 0; i < leak.size(); i++) leak[i] = (uint8_t) (x.ct[i] ^ m.ct[i] ^ pt[i]); }
             VF_CHECK(!released(o2.data(), leak), "aead-plaintext-released:chacha", "%s returned rc=%d (%s) but left the decrypted plaintext of the unauthenticated message in the output buffer (len=%zu)", AN[api], r,
                      CN[kind], leak.size());
+            c.count("release-checked:chacha");
+#endif
             c.count(std::string("chacha-neg:") + CN[kind]);
             return true;
         };
@@ -298,7 +331,7 @@ void chacha_case(Tape &t, Ctx &c) {
             int kind = 1 + (int) t.below(C_NKINDS - 1);
             size_t pos = (size_t) t.u16(); unsigned bit = (unsigned) t.below(8);
             if (try_corrupt(kind, pos, bit)) negs = CN[kind];
-        } else if (neg < 122 && L.n <= 24 && alen <= 24) {
+        } else if (sweep) {
             size_t n = 0;
             for (int kind = C_CT; kind <= C_AAD; kind++) {
                 size_t sz = kind == C_CT ? L.n : kind == C_TAG ? 16 : kind == C_NONCE ? 12 : alen;
@@ -331,5 +364,9 @@ void prop(Tape &t, Ctx &c) {
 }
 
 } // namespace
+#ifdef C12_STRICT
+VF_TARGET("C12.aead_strict", prop, 320, 60)
+#else
 VF_TARGET("C12.aead", prop, 320, 60)
+#endif
 namespace vf { void vf_global_init(int, char **) { if (psCryptoOpen(PSCRYPTO_CONFIG) != PS_SUCCESS) { fprintf(stderr, "psCryptoOpen failed\n"); _exit(2); } } }
